@@ -539,6 +539,28 @@ def alias_self_context(sources: Dict[str, str]) -> Dict[str, str]:
     return out
 
 
+def invert_continue_guards(sources: Dict[str, str]) -> Dict[str, str]:
+    """Inside loop bodies: `if c: continue` followed by the rest  ->  `if not c: <rest>`."""
+    def conv(body):
+        for i, st in enumerate(body):
+            if isinstance(st, ast.If) and not st.orelse and len(st.body) == 1 and isinstance(st.body[0], ast.Continue) and i + 1 < len(body):
+                rest = conv(body[i + 1:])
+                t = st.test.operand if isinstance(st.test, ast.UnaryOp) and isinstance(st.test.op, ast.Not) else ast.UnaryOp(op=ast.Not(), operand=st.test)
+                new = ast.If(test=t, body=rest, orelse=[])
+                ast.copy_location(new, st)
+                return body[:i] + [new]
+        return body
+    out = {}
+    for p, s in sources.items():
+        tree = ast.parse(s)
+        for n in ast.walk(tree):
+            if isinstance(n, (ast.For, ast.While)):
+                n.body = conv(n.body)
+        ast.fix_missing_locations(tree)
+        out[p] = ast.unparse(tree)
+    return out
+
+
 def rename_all_locals(sources: Dict[str, str]) -> Dict[str, str]:
     out = {}
     for p, s in sources.items():
@@ -606,6 +628,8 @@ def _worker(args):
             overlay = rename_private_params(sources)
         elif m.old == "<alias-self-context>":
             overlay = alias_self_context(sources)
+        elif m.old == "<invert-continue-guards>":
+            overlay = invert_continue_guards(sources)
         elif m.old == "<keywords-at-call-sites>":
             overlay = keywords_at_call_sites(sources)
         elif m.old == "<swap-if-else>":
@@ -652,6 +676,7 @@ GENERIC = [
     M("leading keyword arguments of package calls written positionally", "", None, "<positional-at-call-sites>", "", kind="equiv"),
     M("rename every parameter of every private function / method (keyword arguments at call sites follow)", "", None, "<rename-private-params>", "", kind="equiv"),
     M("alias self.context into a local at the start of every method that only reads it", "", None, "<alias-self-context>", "", kind="equiv"),
+    M("loop guards `if c: continue` rewritten as `if not c: <rest of the body>`", "", None, "<invert-continue-guards>", "", kind="equiv"),
     M("methods of every class in reverse source order", "", None, "<reverse-methods>", "", kind="equiv"),
     M("swap the branches of every plain if/else under the negated test", "", None, "<swap-if-else>", "", kind="equiv"),
     M("annotate every local that is assigned once (x = v  ->  x: object = v)", "", None, "<annotate-single-assignments>", "", kind="equiv"),
